@@ -8,6 +8,8 @@ typedef struct error_context_s {
     object_t *save_command_giver; 
     svalue_t *save_sp;
     int save_num_varargs; /* pending '...' expansions of the argument list being built */
+    int save_load_depth; /* load_object() nesting at the save point */
+    object_t *save_restrict_destruct; /* move_or_destruct() guard at the save point */
     struct error_context_s *save_context;
 } error_context_t;
 
